@@ -1160,6 +1160,61 @@ example : TornResult b2 b3torn :=
 
 end BytesRun
 
+/-! ### the invariants of the bytes under concurrency: `new task` as a process of the byte-level system on the empty store -/
+section DiskConcRun
+open ProcB Proc
+
+def secW : Sec := .create false "" "first" "" {}
+def envsW : List (Env × Sec) := [(envA, secW)]
+def wrW : Write := .append [.newItem false "AAAAAA" "u1" "" .todo "first" "" (some 100)]
+theorem create_decides : secDecide envA secW [] = .ok wrW := by decide +kernel
+theorem wlimit_exists : ∃ limit, ∀ e ∈ wEvents wrW, (encodeEvent ets e).length < limit := by
+  obtain ⟨l, hl⟩ := short_exists (encodeEvent ets) (wEvents wrW)
+  exact ⟨l, fun e he => (hl e he).2⟩
+noncomputable def wLimit : Nat := Classical.choose wlimit_exists
+noncomputable def c0 : BSys := BSys.init [] (envsW.map fun (es : Env × Sec) => secDecide es.1 es.2) 0 wLimit ets
+noncomputable def c1 : BSys := { setPhaseB c0 0 .locked with holder := some 0 }
+noncomputable def c2 : BSys := setPhaseB c1 0 (.read [])
+noncomputable def c3 : BSys := { setPhaseB (writeBytes c2 wrW) 0 (.wrote [] wrW) with commits := c2.commits ++ [(0, [], wrW)] }
+theorem cstep01 : BStep c0 c1 := BStep.lockOk c0 0 ⟨secDecide envA secW, .start⟩ rfl rfl rfl
+theorem cstep12 : BStep c1 c2 := BStep.read c1 0 ⟨secDecide envA secW, .locked⟩ [] rfl rfl readEvents_nil
+theorem cfits : Fits c2 (wEvents wrW) := Classical.choose_spec wlimit_exists
+theorem cstep23 : BStep c2 c3 := BStep.write c2 0 ⟨secDecide envA secW, .read []⟩ [] wrW rfl rfl create_decides cfits
+theorem cnot_torn_01 : ¬ Torn c0 c1 := by
+  rintro ⟨p, w, snap, evs, k, h1, h2, _, _⟩
+  cases p with
+  | zero => simp [c0, envsW, BSys.init] at h1; subst h1; cases h2
+  | succ p => simp [c0, envsW, BSys.init] at h1
+theorem cnot_torn_12 : ¬ Torn c1 c2 := by
+  rintro ⟨p, w, snap, evs, k, h1, h2, _, _⟩
+  cases p with
+  | zero => simp [c1, c0, envsW, BSys.init, setPhaseB] at h1; subst h1; cases h2
+  | succ p => simp [c1, c0, envsW, BSys.init, setPhaseB] at h1
+theorem cnot_torn_23 : ¬ Torn c2 c3 := by
+  rintro ⟨p, w, snap, evs, k, _, _, _, heq⟩
+  have := congrArg (fun s => s.commits) heq
+  simp [c3, c2, c1, c0, BSys.init, setPhaseB] at this
+theorem creach3 : BReachableNT c0 c3 :=
+  .tail (.tail (.tail (.refl _) cstep01 cnot_torn_01) cstep12 cnot_torn_12) cstep23 cnot_torn_23
+
+/-- C02 / C07 on the bytes under concurrency: the hypotheses are met by a `new task` run as a process on the empty store -/
+example : ∃ L g, readEvents classifyLine wLimit c3.file = .ok L ∧ replayRaw L = .ok g ∧ Inv06 g ∧ Inv07 g ∧ Inv14 g :=
+  C02_bytes_under_every_schedule_keep_the_invariants [] [] envsW 0 wLimit ets readEvents_nil allWf_nil .init
+    (by intro es hes; simp [envsW] at hes; subst hes; show Text.isBlank "first" = false; decide)
+    (by intro es hes; simp [envsW] at hes; subst hes; exact envA_T)
+    c3 creach3
+    (by
+      intro i p snap w g hc hr es hes
+      have hcm : c3.commits = [(0, [], wrW)] := by simp [c3, c2, c1, c0, BSys.init, setPhaseB]
+      rw [hcm] at hc
+      cases i with
+      | zero =>
+        simp at hc; obtain ⟨rfl, rfl, rfl⟩ := hc
+        simp [envsW] at hes; subst hes
+        cases hr; exact envA_OK
+      | succ i => simp at hc)
+end DiskConcRun
+
 end JsonWitness
 
 /-! ### the lock as a file name: two processes find `.ergo/lock` missing, both create it, one gets in -/
